@@ -211,6 +211,11 @@ class RunnableRails(Runnable[Input, Output]):
                     self.passthrough_bot_output_key: result["content"]
                 }
 
+            # If the rails raised an exception (`enable_rails_exceptions`), the bot
+            # message was blocked: we return the exception and not the message.
+            if isinstance(result, dict) and result.get("role") == "exception":
+                return {self.passthrough_bot_output_key: result["content"]}
+
             bot_message = context.get("bot_message")
 
             # We make sure that, if the output rails altered the bot message, we
